@@ -1049,6 +1049,9 @@ func (r *simRun) markQueuedLost(j int) {
 		if e.backend != j {
 			continue
 		}
+		if args, _, err := strictParse(e.req); err == nil && string(lowerASCII(args[0])) == "asking" {
+			continue // ASKING is the proxy's own command, not a client fragment
+		}
 		k++
 		if k > wire {
 			if args, _, err := strictParse(e.req); err == nil {
